@@ -93,6 +93,11 @@ def build(ctx, rnd, thorough):
             scs[-1] = scenario(len(scs) - 1, rnd.choice(["AllRefused", "AllRefused", "LargeRefused", "LargeOK"]), fk, fat, hist2, rnd, kind="cip",
                                withblock=False)
             scs[-1]["family"] += "-policy-change"
+        if j % 5 == 2 and fk != "none":     # two faults in one history (the first a raised error, the second either kind)
+            f1 = rnd.randint(1, 25)
+            scs[-1]["faults"] = [{"at": "op", "n": f1, "kind": "raise"}, {"at": "op", "n": f1 + rnd.randint(1, 12), "kind": fk}]
+            scs[-1]["fault"] = scs[-1]["faults"][1]
+            scs[-1]["family"] += "-two-faults"
         if j % 3 == 0:                      # replies arrive in small TCP segments: the fault may fall inside a frame
             scs[-1]["chunk"] = rnd.choice([30, 24, 7, 1])
             scs[-1]["fault"] = None if fk == "none" else {"at": "op", "n": rnd.randint(1, 80), "kind": fk}
@@ -105,6 +110,8 @@ def run(ctx):
     r = tlc.must_pass(tlc.run("Lifecycle", "Lifecycle.cfg", workers=16, timeout=1500, coverage=True), "Lifecycle")
     if [a for a in r.coverage_zero() if a != "PolicyChange"]:
         raise core.Machinery("vacuous Lifecycle run: actions never taken %s" % r.coverage_zero())
+    ctx.add_tlc(r, "R1")
+    r = tlc.must_pass(tlc.run("Lifecycle", "Lifecycle_2f.cfg", workers=16, timeout=1800), "Lifecycle_2f")       # two faults per history
     ctx.add_tlc(r, "R1")
     r = tlc.must_pass(tlc.run("Lifecycle", "Lifecycle_env.cfg", workers=16, timeout=1500, coverage=True), "Lifecycle_env")
     if r.coverage_zero():
@@ -127,7 +134,7 @@ def run(ctx):
                                                     "fault": (r["sc"]["fault"] or {}).get("kind", "none"), "api": ev.get("api", ev.get("k", ""))})
     ctx.assumptions += ["a session ends with UnRegisterSession or TCP close; a CIP connection only with Forward Close",
                         "after a lost Forward Open reply the driver cannot know the connection: only connections whose reply was "
-                        "delivered count for 'target holds no connection of this client'", "one fault per scenario"]
+                        "delivered count for 'target holds no connection of this client'", "at most two faults per scenario"]
 
 
 def replay(path):
